@@ -1,6 +1,6 @@
 // cache.go — skip the (slow: go/packages + type-checking) translation of the
 // function units when nothing they depend on changed: the stamp of a selection
-// of units records the hash of every non-test Go source under src/, go.mod and
+// of units records the hash of every non-test Go source under src/ and vendor/, go.mod and
 // this binary, the hash of each Gen/<unit>.v as written, and the manifest
 // entries. Any difference (or a missing / edited file) retranslates everything.
 package main
@@ -45,6 +45,18 @@ func newUnitCache(repo, out string, all bool, want map[string]bool) *unitCache {
 	key := fmt.Sprintf("%x", sha256.Sum256([]byte(strings.Join(c.files, ","))))[:12]
 	c.stamp = filepath.Join(out, ".units."+key+".stamp")
 	h := sha256.New()
+	walk := func(root string) {
+		filepath.Walk(filepath.Join(repo, root), func(p string, fi os.FileInfo, e error) error {
+			if e == nil && !fi.IsDir() && strings.HasSuffix(p, ".go") && !strings.HasSuffix(p, "_test.go") {
+				if data, e := os.ReadFile(p); e == nil {
+					fmt.Fprintf(h, "%s %d\n", strings.TrimPrefix(p, repo), len(data))
+					h.Write(data)
+				}
+			}
+			return nil
+		})
+	}
+	walk("vendor") // the packages the sources are type-checked against
 	filepath.Walk(filepath.Join(repo, "src"), func(p string, fi os.FileInfo, e error) error {
 		if e == nil && !fi.IsDir() && strings.HasSuffix(p, ".go") && !strings.HasSuffix(p, "_test.go") {
 			if data, e := os.ReadFile(p); e == nil {
